@@ -20,6 +20,9 @@ def gen_value(rng, depth=0, budget=None):
     r = rng.random()
     if depth < 4 and budget[0] > 0 and r < (0.85 if depth == 0 else 0.4):
         n = rng.choice([0, 1, 2, 3, 4])
+        if rng.random() < 0.02:
+            n = rng.choice([10, 12, 40, 120])
+            budget[0] = max(budget[0], n)
         if rng.random() < 0.5:
             return [gen_value(rng, depth + 1, budget) for _ in range(n)]
         out = {}
@@ -66,7 +69,7 @@ def gen_patch(rng, doc):
     """returns list of op dicts generated against the evolving reference document"""
     ops = []
     cur = refpatch.Doc(copy.deepcopy(doc))
-    nops = rng.choice([1, 2, 3, 5, 8])
+    nops = rng.choice([1, 2, 3, 5, 8]) if rng.random() > 0.03 else rng.choice([20, 40, 90])
     fail_at = rng.randrange(nops) if rng.random() < 0.4 else -1
     i = 0
     followup = None
